@@ -177,7 +177,7 @@ fn encode<'t, T>(
 
     fn encode_intermediate_tree(grouping: Grouping, pattern: &mut String) {
         pattern.push_str(sepexpr!("(?:{0}|{0}"));
-        grouping.push_str(pattern, sepexpr!(".*{0}"));
+        grouping.push_str(pattern, sepexpr!("(?s:.*){0}"));
         pattern.push(')');
     }
 
@@ -254,11 +254,11 @@ fn encode<'t, T>(
                         encode_intermediate_tree(grouping, pattern);
                     }
                     else if *has_root {
-                        grouping.push_str(pattern, sepexpr!("{0}.*{0}?"));
+                        grouping.push_str(pattern, sepexpr!("{0}(?s:.*){0}?"));
                     }
                     else {
                         pattern.push_str(sepexpr!("(?:{0}?|"));
-                        grouping.push_str(pattern, sepexpr!(".*{0}"));
+                        grouping.push_str(pattern, sepexpr!("(?s:.*){0}"));
                         pattern.push(')');
                     }
                 },
@@ -271,11 +271,11 @@ fn encode<'t, T>(
                     }
                     else {
                         pattern.push_str(sepexpr!("(?:{0}?|{0}"));
-                        grouping.push_str(pattern, ".*");
+                        grouping.push_str(pattern, "(?s:.*)");
                         pattern.push(')');
                     }
                 },
-                (Only, Wildcard(Tree { .. })) => grouping.push_str(pattern, ".*"),
+                (Only, Wildcard(Tree { .. })) => grouping.push_str(pattern, "(?s:.*)"),
             },
             TokenTopology::Branch(branch) => match branch {
                 Alternation(alternation) => {
